@@ -259,7 +259,7 @@ func genSplit(g *genCtx) {
 					if !g.thorough() && (ci+len(l))%2 != 0 {
 						continue
 					}
-					emit(Case{"k": "batch", "proto": proto, "cands": l, "text": scalars(content), "ref": r.Intn(256)})
+					emit(Case{"k": "batch", "proto": proto, "cands": l, "text": scalars(content), "ref": []int{0, 0, 107, 255, r.Intn(256), r.Intn(256)}[r.Intn(6)]})
 				}
 			}
 		}
